@@ -150,6 +150,49 @@ func rulesC14(c *Ctx, r *Report) {
 	rulesEffC14(c, r)
 }
 
+// panicsUnlessMultipleOf3: every return of g lies behind a test `P<k> % 3 != 0` whose failing edge always panics.
+func panicsUnlessMultipleOf3(g *ssa.Function, k int) bool {
+	gs := newSymb(g)
+	want := fmt.Sprintf("(P%d %% 3)", k)
+	for _, b := range g.Blocks {
+		iff, ok := b.Instrs[len(b.Instrs)-1].(*ssa.If)
+		if !ok {
+			continue
+		}
+		bo, ok := iff.Cond.(*ssa.BinOp)
+		if !ok || (bo.Op != token.NEQ && bo.Op != token.EQL) {
+			continue
+		}
+		other := bo.X
+		if z, ok := cInt(constVal(bo.Y)); !ok || z != 0 {
+			other = bo.Y
+			if z, ok := cInt(constVal(bo.X)); !ok || z != 0 {
+				continue
+			}
+		}
+		if gs.expr(other).String() != want {
+			continue
+		}
+		bad := b.Succs[0]
+		if bo.Op == token.EQL {
+			bad = b.Succs[1]
+		}
+		if !blockAlwaysPanics(bad) {
+			continue
+		}
+		all := true
+		for _, rb := range g.Blocks {
+			if _, isRet := rb.Instrs[len(rb.Instrs)-1].(*ssa.Return); isRet && !b.Dominates(rb) {
+				all = false
+			}
+		}
+		if all {
+			return true
+		}
+	}
+	return false
+}
+
 // rulesTranslate: VSA-TR.
 func rulesTranslate(c *Ctx, r *Report, g *ssa.Global, codon map[[3]int64]int64) {
 	f := c.fn("sequtil", "Translate")
@@ -384,6 +427,30 @@ func rulesTranslate(c *Ctx, r *Report, g *ssa.Global, codon map[[3]int64]int64) 
 		if blockAlwaysPanics(bad) && b.Dominates(iphi.Block()) {
 			okLen = true
 			guardBlk = b
+		}
+	}
+	if !okLen {
+		// the guard may be a helper that is handed len(src) and panics unless it is a multiple of 3
+		for _, b := range f.Blocks {
+			if !b.Dominates(iphi.Block()) || b == iphi.Block() {
+				continue
+			}
+			for _, in := range b.Instrs {
+				call, ok := in.(*ssa.Call)
+				if !ok {
+					continue
+				}
+				g := call.Call.StaticCallee()
+				if g == nil || g.Blocks == nil || !c.inScope(g) {
+					continue
+				}
+				for k, a := range call.Call.Args {
+					if s.expr(a).String() == "builtin:len(P1)" && k < len(g.Params) && panicsUnlessMultipleOf3(g, k) {
+						okLen = true
+						guardBlk = b
+					}
+				}
+			}
 		}
 	}
 	r.check(okLen, "VSA-TR", where, "length guard", c.pos(f.Pos()), "`len(src) % 3 != 0` panics before the first codon is read", "no dominating `len(src) % 3 != 0 => panic` guard")
@@ -934,6 +1001,27 @@ func rulesTranslatePanics(c *Ctx, r *Report) {
 	n := 0
 	for _, f := range c.stageFuncs(root) {
 		s := newSymb(f)
+		// in a helper, a parameter that is len(...) at every call from Translate's stages stands for that length
+		lenParam := map[string]bool{}
+		if f != root {
+			for k := range f.Params {
+				sites, all := 0, true
+				for _, g := range c.stageFuncs(root) {
+					gsy := newSymb(g)
+					instrs(g, func(in ssa.Instruction) {
+						if call, ok := in.(*ssa.Call); ok && call.Call.StaticCallee() == f && k < len(call.Call.Args) {
+							sites++
+							if !strings.HasPrefix(gsy.expr(call.Call.Args[k]).String(), "builtin:len(") {
+								all = false
+							}
+						}
+					})
+				}
+				if sites > 0 && all {
+					lenParam[fmt.Sprintf("(P%d %% 3)", k)] = true
+				}
+			}
+		}
 		instrs(f, func(in ssa.Instruction) {
 			pn, ok := in.(*ssa.Panic)
 			if !ok {
@@ -947,7 +1035,7 @@ func rulesTranslatePanics(c *Ctx, r *Report) {
 				}
 				e := s.expr(x).String()
 				// len(src) % 3 != 0
-				if kind == "ne" && k == 0 && strings.HasPrefix(e, "(builtin:len(") && strings.HasSuffix(e, " % 3)") {
+				if kind == "ne" && k == 0 && (strings.HasPrefix(e, "(builtin:len(") && strings.HasSuffix(e, " % 3)") || lenParam[e]) {
 					return "length not a multiple of 3", true
 				}
 				// the looked-up amino acid is 0 (a table miss)
